@@ -49,6 +49,24 @@ def boolTok (t : String) : Option Bool :=
 def posList (l : List Nat) : String :=
   if l.isEmpty then "-" else String.intercalate "," (l.map fun n => s!"{n}")
 
+/-- an iterator walk script: optional leading `e` (start at the end position), then `+ - p m` -/
+def scriptIn (t : String) : Option (Bool × List DynBitset.ItOp) :=
+  let cs := t.toList
+  let (fromEnd, cs) := match cs with
+    | 'e' :: r => (true, r)
+    | r => (false, r)
+  (cs.mapM fun c =>
+    if c == '+' then some DynBitset.ItOp.inc else if c == '-' then some .dec
+    else if c == 'p' then some .postInc else if c == 'm' then some .postDec else none).map fun ops => (fromEnd, ops)
+
+/-- positions of a walk: `E` for the end position `last`, `copy/position` for the post forms -/
+def walkOut (last : Int) (l : List DynBitset.ItOut) : String :=
+  let show1 (p : Int) : String := if p == last then "E" else s!"{p}"
+  if l.isEmpty then "-" else
+  String.intercalate "," (l.map fun o => match o.copy with
+    | some c => s!"{show1 c}/{show1 o.pos}"
+    | none => show1 o.pos)
+
 /-- a mutator result stored under `dst` -/
 def store (s : St) (dst : String) (r : Res Bits) : St × String :=
   match r with
@@ -61,6 +79,10 @@ def step (s : St) (line : String) : St × String :=
   | ["dbs", "new", n, bits] =>
     match bitsIn bits with
     | some v => (s.put n v, stateOut v)
+    | none => (s, "bad-op")
+  | ["dbs", "newbs", n, bits] =>
+    match bitsIn bits with
+    | some v => store s n (DynBitset.ofBitset v)
     | none => (s, "bad-op")
   | ["dbs", "newn", n, k] =>
     match k.toNat? with
@@ -121,6 +143,24 @@ def step (s : St) (line : String) : St × String :=
       | "shr=", [k] => match pn k with | some k => store s n (DynBitset.shrAssign v k) | none => (s, "bad-op")
       | "shl", [k, d] => match pn k with | some k => store s d (DynBitset.shl v k) | none => (s, "bad-op")
       | "shr", [k, d] => match pn k with | some k => store s d (DynBitset.shr v k) | none => (s, "bad-op")
+      | "asgbs", [bits] => match bitsIn bits with
+        | some o => store s n (DynBitset.assignBitset v o)
+        | none => (s, "bad-op")
+      | "strc", [z, o] => match z.toList, o.toList with
+        | [z], [o] => match DynBitset.toStrWith v z o with
+          | .ok str => (s, s!"ok {if str.isEmpty then "-" else String.ofList str}")
+          | r => (s, excOut r)
+        | _, _ => (s, "bad-op")
+      | "it", [script] => match scriptIn script with
+        | some (fromEnd, ops) => match DynBitset.fwdWalk v fromEnd ops with
+          | .ok l => (s, s!"ok {walkOut (DynBitset.endIt v) l}")
+          | r => (s, excOut r)
+        | none => (s, "bad-op")
+      | "rit", [script] => match scriptIn script with
+        | some (fromEnd, ops) => match DynBitset.revWalk v fromEnd ops with
+          | .ok l => (s, s!"ok {walkOut (DynBitset.rendIt v) l}")
+          | r => (s, excOut r)
+        | none => (s, "bad-op")
       | "fwd", [] => match DynBitset.iterate v with
         | .ok l => (s, s!"ok {posList l}")
         | r => (s, excOut r)
